@@ -62,6 +62,21 @@ func c16Defs(tier string, seed uint64) []*world.CorpusDef {
 	return defs
 }
 
+// c16SweepDefs are the flows of the i-th scenario of the stability sweep: many generated worlds whose
+// definitions are only put through the stability clauses as stored (no faults), so that rare legal
+// shapes (a dial wait with explicit zero limits, a voice flow with ...) are met in numbers the fault
+// enumeration over a few dozen generated flows cannot reach.
+func c16SweepDefs(tier string, seed uint64, i int) []*world.CorpusDef {
+	s := runSeed(seed, "C16sweep", tier, i)
+	t := sim.NewTape(s)
+	sc := gen.NewScenario(t, gen.Profile{MaxFlows: 4, MaxNodes: 8, Voice: true, RichLocalization: i%2 == 0, ListHeavy: i%3 == 0})
+	var out []*world.CorpusDef
+	for fi, f := range sc.Flows {
+		out = append(out, &world.CorpusDef{ID: fmt.Sprintf("sweep:%d#%d", i, fi), Bytes: f.Bytes(), Assets: sc.AssetsDoc()})
+	}
+	return out
+}
+
 func c16Worker(prop, tier string, seed uint64, from, to, stride int, deadline int64, res *WorkerResult) int {
 	known := loadKnown()
 	defs := c16Defs(tier, seed)
@@ -216,6 +231,45 @@ func c16Worker(prop, tier string, seed uint64, from, to, stride int, deadline in
 			res.Samples = append(res.Samples, []string{"definition " + d.ID, "fault " + faults[len(faults)/3].String(), "fault " + faults[len(faults)/2].String(), "fault " + faults[len(faults)-1].String()})
 		}
 	}
+	nsweep := 4000
+	if tier == "thorough" {
+		nsweep = 120000
+	}
+	for i := from; i < nsweep; i += stride {
+		if deadline != 0 && time.Now().Unix() > deadline {
+			res.StoppedEarly = true
+			break
+		}
+		for _, d := range c16SweepDefs(tier, seed, i) {
+			res.Runs++
+			res.Probes["sweep_definitions"]++
+			o := world.NewC16World(d).Consume(d.Bytes, true, false)
+			inv, det := o.Invariant, o.InvariantDetail
+			if o.Panic != "" {
+				inv, det = "panic-on-generated-definition", o.Consumer+": "+o.Panic
+			}
+			if inv == "" {
+				if det == "accepted" {
+					res.Probes["sweep_definitions_accepted"]++
+				}
+				continue
+			}
+			fp := "C16.stability/" + inv
+			if k := known.match("C16", fp); k != nil {
+				res.KnownSeen[k.Fingerprint]++
+				continue
+			}
+			dup := false
+			for _, c := range res.Candidates {
+				dup = dup || c.Fingerprint == fp
+			}
+			if !dup && len(res.Candidates) < 6 {
+				sp, _ := json.Marshal(c16Special{Def: d.ID, Fault: world.DefFault{Kind: "none"}})
+				res.Candidates = append(res.Candidates, Candidate{RunIndex: i, Seed: seed, Prop: "C16", Oracle: "stability", Fingerprint: fp,
+					Msg: fmt.Sprintf("generated definition %s, as stored, loads but breaks a stability clause: %s: %s", d.ID, inv, clipS(det, 2500)), Special: sp})
+			}
+		}
+	}
 	res.Extra["exhaustive_definitions"] = len(exhaustive)
 	res.Extra["definitions"] += (len(defs) - from + stride - 1) / stride
 	return 0
@@ -280,9 +334,17 @@ func c16Replay(rf *ReplayFile, path string, quiet bool) int {
 	var sp c16Special
 	json.Unmarshal(rf.Special, &sp)
 	var def *world.CorpusDef
-	for _, d := range c16Defs(rf.Tier, rf.BaseSeed) {
-		if d.ID == sp.Def {
-			def = d
+	if strings.HasPrefix(sp.Def, "sweep:") {
+		var i, fi int
+		fmt.Sscanf(sp.Def, "sweep:%d#%d", &i, &fi)
+		if ds := c16SweepDefs(rf.Tier, rf.BaseSeed, i); fi < len(ds) {
+			def = ds[fi]
+		}
+	} else {
+		for _, d := range c16Defs(rf.Tier, rf.BaseSeed) {
+			if d.ID == sp.Def {
+				def = d
+			}
 		}
 	}
 	if def == nil {
